@@ -10,6 +10,9 @@ CONSTANTS
   MaxSteps = 99
   Forms = {"null"}
   Carriers = {"plain"}
+  MaxGap = 0
+  EmptyDocs = {"bare"}
+  DocLoads = {"key"}
   Slice = 0
   NSlices = 1
 SPECIFICATION Spec
